@@ -33,6 +33,13 @@ pub trait Cp {
     fn cl(&self) -> NoisyClone;
     fn eqm(&self, x: NoisyEq) -> u32;
     fn other(&self, x: u8) -> u32;
+    fn lend(&self) -> &u32;
+}
+
+/// a fixture that verifies its (non-verifying-on-drop) mock explicitly when it goes out of scope — also while unwinding
+struct VerifyOnDrop(Option<Unimock>);
+impl Drop for VerifyOnDrop {
+    fn drop(&mut self) { if let Some(u) = self.0.take() { u.verify() } }
 }
 
 /// run `f` (which ends in a panic) with `holders` alive in the unwinding frame; returns what was caught
@@ -108,6 +115,23 @@ fn main() {
             let (hs, out) = build(Box::new(|| Unimock::new((CpMock::eqm.each_call(matching!(eq!(&NoisyEq(1)))).returns(7u32), unmet()))));
             let r = unwind_with(hs, |u| { u.eqm(NoisyEq(6)); });
             after(out, r)
+        }
+        // an explicit verify() run by a fixture's Drop while the thread unwinds from a user panic: unmet expectation, possibly a live clone
+        "verify-in-drop" => {
+            let u = Unimock::new(unmet()).no_verify_in_drop();
+            let keep = match topo.as_str() { "orig" => None, _ => Some(u.clone()) };
+            let r = catch_unwind(AssertUnwindSafe(move || { let _f = VerifyOnDrop(Some(u)); user_panic() }));
+            let got = match r { Ok(()) => Err("no panic reached the frame".to_string()), Err(p) => if p.is::<UserPanic>() { Ok("user".to_string()) } else { Ok(format!("mock:{}", p.downcast_ref::<String>().cloned().unwrap_or_default().lines().next().unwrap_or(""))) } };
+            after(keep, got)
+        }
+        // values lent on the creating thread; the instance then dies on another thread that is unwinding from a user panic
+        "lent-foreign" => {
+            let u = Unimock::new((CpMock::lend.each_call(matching!()).answers(&|u| u.make_ref(5u32)), unmet()));
+            let keep = match topo.as_str() { "orig" => None, _ => Some(u.clone()) };
+            let a = *u.lend() + *u.lend();
+            let j = std::thread::spawn(move || { let _h = u; user_panic() }).join();
+            let got = match j { Ok(()) => Err("the thread did not panic".to_string()), Err(p) => if a == 10 && p.is::<UserPanic>() { Ok("user".to_string()) } else { Ok(format!("mock:{}", p.downcast_ref::<String>().cloned().unwrap_or_default().lines().next().unwrap_or(""))) } };
+            after(keep, got)
         }
         _ => Err(format!("unknown case {case}")),
     };
